@@ -1,12 +1,16 @@
 # bin/check configuration of property C09 (a single dict expression)
-{'harness': 'c09',
- 'props': 'Props/C09.v',
+{'assumptions': ['no 100 consecutive empty reads ((0, nil)) from the input reader (bufio gives up with '
+                 'io.ErrNoProgress)'],
+ 'harness': 'c09',
  'models': ['Model/Chunk.v'],
+ 'props': 'Props/C09.v',
  'trusted': ['encoding/csv, encoding/json, encoding/xml decoders (they sit on bufio) are assumed '
-             'chunk-invariant; the theorems cover the omniparser / go-corelib / bufio layers below them, the '
-             'implementation-side metamorphic oracle covers the whole stack for all seven formats',
+             'chunk-invariant; the theorems cover every omniparser / go-corelib / bufio / x-text layer below '
+             'them (source, charmap decoder, StripBOM, bufio.Reader, ByteReadLine, BytesReplacingReader (any '
+             'token / replacement), bufio.Scanner with the split function) and the complete fixed-length and '
+             'EDI stacks; the implementation-side metamorphic oracle covers the whole stack for all seven '
+             'formats',
              'bufio.Reader, bufio.Scanner, go-corelib ios (StripBOM, BytesReplacingReader, ByteReadLine, '
-             'NewScannerByDelim3) and the x/text charmap decoder are transcribed from their sources into '
-             'Model/Chunk.v and compared with the real code on every run'],
- 'assumptions': ['no 100 consecutive empty reads ((0, nil)) from the input reader (bufio gives up with '
-                 'io.ErrNoProgress)']}
+             'NewScannerByDelim3), strs.ByteIndexWithEsc and the x/text transform.Reader + charmap decoder '
+             'are transcribed from their sources into Model/Chunk.v and compared with the real code on every '
+             'run']}
